@@ -291,5 +291,8 @@ pub fn run(ctx: &Ctx) -> Report {
             rep.nontrivial(hash_str(&format!("fill|{}|{:?}", spec.name, w)));
         }
     }
+    if ctx.variant == "v3" && ctx.only_panel.as_deref().map(|p| p == "epd12in48b_v2").unwrap_or(true) {
+        crate::props::p12checks::c10(&mut rep);
+    }
     rep
 }
